@@ -21,7 +21,8 @@ VALS = [0, 1, -1, 2, 0.5, 0.1, 1e8 + 1, 1e8 + 2]
 # magnitudes at which squares under/overflow: only totality is demanded
 EXTREME = [1e-170, 2e-170, 3e-170, 2.0 ** 53 + 2, 2.0 ** 53 + 4, 1e150,
            -1e150, 1e300, -1e300, 1e308]
-ALPHAS = [0.0, 0.05, 0.5, 1.0]
+# (the last three: positive, but 1 - alpha/2 rounds to one)
+ALPHAS = [0.0, 0.05, 0.5, 1.0, 1e-15, 1e-16, 1e-300, 5e-324]
 
 
 def bad_inputs():
@@ -184,7 +185,7 @@ def compare(t, xs):
             continue
         lo_b, hi_b = float(ex["min"]), float(ex["max"])
         sdu = math.sqrt(float(ex["var_u"]))
-        if a == 0.0:
+        if 1 - a / 2 >= 1.0:
             want = (lo_b, hi_b)
             tol = 0.0
         else:
